@@ -199,6 +199,36 @@ theorem revSpec_frame (hd : d.dig ≠ "") (ht : t ≠ "") :
       · subst h; exact List.mem_cons_self
       · exact List.mem_cons_of_mem _ (ih _ e h hne)
 
+/-- no surviving entry carries tag `t` on digest `d.dig` -/
+theorem revSpec_gone (hd : d.dig ≠ "") (ht : t ≠ "") :
+    ∀ (l : List Desc) (found : Bool), ∀ e ∈ (revSpec (rmStep d t subj) l found).2,
+      ¬ (e.dig = d.dig ∧ e.ann.isNil = false ∧ e.ann.tag = t) := by
+  intro l
+  induction l with
+  | nil => intro found e he; simp [revSpec] at he
+  | cons x xs ih =>
+    intro found e he
+    by_cases hx : x.dig = d.dig
+    · by_cases h1 : found = true ∧ (x.ann.len = 0 ∨ x.ann.tag = t)
+      · obtain ⟨hf, h1'⟩ := h1
+        subst hf
+        rw [revSpec_cons_drop _ xs (step_drop d t subj hd ht x hx h1')] at he
+        exact ih _ e he
+      · by_cases h2 : ¬ x.ann.isNil = true ∧ x.ann.tag = t
+        · rw [revSpec_cons_set _ xs (step_set d t subj hd ht found x hx h1 h2)] at he
+          rcases List.mem_cons.mp he with rfl | he'
+          · intro ⟨_, _, htag⟩; exact ht htag.symm
+          · exact ih _ e he'
+        · rw [revSpec_cons_keep _ xs (step_keep d t subj hd ht found x hx h1 h2)] at he
+          rcases List.mem_cons.mp he with rfl | he'
+          · intro ⟨_, hn, htag⟩
+            exact h2 ⟨by simp [hn], htag⟩
+          · exact ih _ e he'
+    · rw [revSpec_cons_keep _ xs (step_other d t subj hd found x hx)] at he
+      rcases List.mem_cons.mp he with rfl | he'
+      · intro ⟨h, _⟩; exact hx h
+      · exact ih _ e he'
+
 /-- starting with `found = false`, the first entry of the digest that is visited survives (possibly untagged) -/
 theorem revSpec_keeps (hd : d.dig ≠ "") (ht : t ≠ "") :
     ∀ (l : List Desc), (∃ x ∈ l, x.dig = d.dig) → ∃ e ∈ (revSpec (rmStep d t subj) l false).2, e.dig = d.dig := by
@@ -230,6 +260,7 @@ structure RmTagSpec (ix : Index) (d : Desc) (r : Index) : Prop where
       e' = e ∨ (e' = clearTag e ∧ e.dig = d.dig ∧ e.ann.isNil = false ∧ e.ann.tag = d.ann.tag)
   frame : ∀ e ∈ ix.manifests, (e.dig ≠ d.dig ∨ (e.ann.len ≠ 0 ∧ e.ann.tag ≠ d.ann.tag)) → e ∈ r.manifests
   keeps : (∃ x ∈ ix.manifests, x.dig = d.dig) → ∃ e ∈ r.manifests, e.dig = d.dig
+  gone : ∀ e ∈ r.manifests, ¬ (e.dig = d.dig ∧ e.ann.isNil = false ∧ e.ann.tag = d.ann.tag)
   children : r.children = ix.children
 
 theorem rmDesc_tag (ix : Index) (d : Desc) (hd : d.dig ≠ "") (hn : d.ann.isNil = false) (ht : d.ann.tag ≠ "") :
@@ -239,7 +270,11 @@ theorem rmDesc_tag (ix : Index) (d : Desc) (hd : d.dig ≠ "") (hn : d.ann.isNil
     simp only [hn, Bool.false_eq_true, if_false]
     rw [rmMainLoop_eq]
     exact (descLoop_perm _ false ix.manifests).2
-  refine ⟨?_, ?_, ?_, ?_⟩
+  refine ⟨?_, ?_, ?_, ?_, ?_⟩
+  rotate_left 3
+  · intro e he
+    exact revSpec_gone d d.ann.tag d.ann.subj hd ht _ false e (hperm.mem_iff.mp he)
+  rotate_left 1
   · intro e' he'
     obtain ⟨e, he, h⟩ := revSpec_origin d d.ann.tag d.ann.subj hd ht _ false e' (hperm.mem_iff.mp he')
     exact ⟨e, by simpa using he, h⟩
